@@ -15,9 +15,9 @@ type CtrlDep struct {
 // CDG computes control dependence for one function, with Return and Panic
 // blocks as exits.
 type CDG struct {
-	Fn    *ssa.Function
-	pdom  []map[int]bool // pdom[b] = set of blocks that post-dominate b (including b); virtual exit = len(blocks)
-	deps  map[*ssa.BasicBlock][]CtrlDep
+	Fn   *ssa.Function
+	pdom []map[int]bool // pdom[b] = set of blocks that post-dominate b (including b); virtual exit = len(blocks)
+	deps map[*ssa.BasicBlock][]CtrlDep
 }
 
 func NewCDG(f *ssa.Function) *CDG {
